@@ -256,15 +256,18 @@ def varianceParameters (rvs : RVs α) : List α :=
 
 /-! ### JointNormalDistribution.__getitem__ (collection of names) -/
 
+/-- The result for a proper sub-collection: the selected names in block order, a
+    `NormalDistribution` when one name is selected, else `variance[our_index, our_index]`. -/
+def pickDist (d : Dist α) (p : String → Bool) : Dist α :=
+  match selIdx p d.names with
+  | [x] => normal x.1 d.level (d.mean.getD x.2 0) (ent d.var x.2 x.2)
+  | sel => ⟨sel.map (·.1), d.level, true, sel.map (fun x => d.mean.getD x.2 0), subMat d.var (sel.map (·.2))⟩
+
 def distGetitem (d : Dist α) (index : List String) : Except Err (Dist α) :=
   if index.length = 0 ∨ index.length > d.names.length then .error .keyError else
-  let coll := index.eraseDups
-  if coll.any (fun a => !d.names.contains a) then .error .keyError else
-  if coll.length = d.names.length then .ok d else
-  let sel := selIdx (coll.contains ·) d.names
-  match sel with
-  | [x] => .ok (normal x.1 d.level (d.mean.getD x.2 0) (ent d.var x.2 x.2))
-  | _ => .ok ⟨sel.map (·.1), d.level, true, sel.map (fun x => d.mean.getD x.2 0), subMat d.var (sel.map (·.2))⟩
+  if index.eraseDups.any (fun a => !d.names.contains a) then .error .keyError else
+  if index.eraseDups.length = d.names.length then .ok d else
+  .ok (pickDist d (index.eraseDups.contains ·))
 
 /-! ### validate_parameters / nearest_valid_parameters
 
